@@ -12,10 +12,13 @@ use peginator::{ParseError, PegParser};
 use proc_macro2::TokenStream;
 use quote::{format_ident, quote};
 
-use super::common::{check_ident, safe_ident, CodegenGrammar, CodegenRule, CodegenSettings};
+use super::common::{
+    check_derives, check_ident, safe_ident, CodegenGrammar, CodegenRule, CodegenSettings,
+};
 
 impl CodegenGrammar for Grammar {
     fn generate_code(&self, settings: &CodegenSettings) -> Result<TokenStream> {
+        check_derives(settings)?;
         let mut all_types = TokenStream::new();
         let mut all_parsers = TokenStream::new();
         let mut all_impls = TokenStream::new();
